@@ -5,7 +5,7 @@
 #   tools/suite.sh <checkout dir> <log prefix>
 D="$1"; P="$2"
 cd "$D" || exit 3
-export OMP_NUM_THREADS=2
+export OMP_NUM_THREADS=1 OMP_WAIT_POLICY=passive
 rm -f ${P}.part*.log ${P}.part*.xml
 parts=(
  "test/unit/reductions/exponentiated_gradient/test_exponentiatedgradient_arguments.py"
